@@ -78,7 +78,9 @@ def run_one(ck, prog):
                 ck.note(f"cross-reference (not a C16 violation): {p} at {span_str(sp)} casts the address of a pointer-typed place ({e[3]}) to an integer")
     ck.floor("C16.1", "functions in the socket compat module", n_fn, 10)
     it = [f for p, f in prog.fns.items() if "ControlMessageIterator" in p and p.endswith("Iterator>::next")]
-    if ck.anchor("C16.1", "ControlMessageIterator::next", it):
+    if ck.config == "C" and not it:
+        ck.note("config C (no alloc): the control-message iterator is not compiled; C16.1 iterator rules not applicable there")
+    elif ck.anchor("C16.1", "ControlMessageIterator::next", it):
         ctx = prog.ctx(it[0])
         # the end bound derives from msg_control's VALUE plus msg_controllen
         ends = []
@@ -95,7 +97,9 @@ def run_one(ck, prog):
 
     # the first header exists only if the RECEIVED control length holds one: msg_control is looked at only under msg_controllen >= size_of(cmsghdr)
     cm = [f for p2, f in prog.fns.items() if p2.startswith("rusl::platform::compat::socket::MsgHdrBorrow") and p2.endswith("::control_messages")]
-    if ck.anchor("C16.1", "MsgHdrBorrow::control_messages", cm):
+    if ck.config == "C" and not cm:
+        pass
+    elif ck.anchor("C16.1", "MsgHdrBorrow::control_messages", cm):
         c2 = prog.ctx(cm[0])
         reads = []
         for b in cm[0]["blocks"]:
